@@ -403,6 +403,17 @@ func (r *runner) step(i int, x op) *vh.Violation {
 				}
 			}
 		}
+		// ---- C01: what subscribers of the attestation event reporter are told is exactly what was published
+		if r.o.safety {
+			if len(so.quorumEvents) != len(so.vaas) {
+				return vh.V("C01/quorum-event-count", "%d VAAs broadcast but %d VAAQuorum events reported", len(so.vaas), len(so.quorumEvents))
+			}
+			for k, b := range so.quorumEvents {
+				if !bytes.Equal(b, so.vaas[k]) {
+					return vh.V("C01/quorum-event-differs", "the VAA reported to event subscribers differs from the broadcast VAA")
+				}
+			}
+		}
 		// ---- C02: the reference model
 		if r.o.model && modelOn {
 			d := r.dm(hash)
@@ -488,6 +499,19 @@ func (r *runner) step(i int, x op) *vh.Violation {
 		}
 		if len(so.obs) != 0 || len(so.vaas) != 0 || len(so.reqs) != 0 {
 			return vh.V(r.o.pfx+"/inbound-vaa-rebroadcast", "an inbound signed VAA made the processor emit gossip")
+		}
+		if r.o.safety {
+			if len(so.quorumEvents) > len(so.changed) {
+				return vh.V("C01/quorum-event-without-store", "an inbound VAA was reported as quorum VAA (%d events) without being stored (%d store changes)", len(so.quorumEvents), len(so.changed))
+			}
+			for _, b := range so.quorumEvents {
+				if e.cur == nil {
+					return vh.V("C01/inbound-stored-without-set", "quorum event before any guardian set")
+				}
+				if _, err := vh.RefVerifyVAA(b, e.cur.Addrs); err != nil {
+					return vh.V("C01/inbound-vaa-fails-verification", "a peer VAA reported to event subscribers does not verify against the current set: %v", err)
+				}
+			}
 		}
 		for id, ch := range so.changed {
 			r.nStored++
